@@ -59,3 +59,17 @@ void jcsa_use_read_number(const char* s, std::size_t n, const wchar_t* w)
     (void)to_integer(s, n, u64); (void)to_integer(s, n, i64); (void)to_integer(s, n, u32); (void)to_integer(s, n, i32);
     (void)hex_to_integer(s, n, u64); (void)hex_to_integer(s, n, i64); (void)hex_to_integer(s, n, u32); (void)hex_to_integer(s, n, i32);
 }
+
+// object construction / bulk insertion paths of both object policies (duplicate-key handling)
+void jcsa_use_object_ranges(const std::vector<std::pair<std::string, jsoncons::ojson>>& items, const std::vector<std::pair<std::string, jsoncons::json>>& items2)
+{
+    using namespace jsoncons;
+    ojson o(json_object_arg, items.begin(), items.end());
+    ojson o2(json_object_arg, items.begin(), items.end(), semantic_tag::none, std::allocator<char>());
+    o.insert(items.begin(), items.end());
+    json j(json_object_arg, items2.begin(), items2.end());
+    j.insert(items2.begin(), items2.end());
+    // j.insert(sorted_unique_range_tag(), ...) does not compile when instantiated (undeclared `convert`, observation N6)
+    o.merge(o2); o.merge_or_update(o2);
+    j.merge(j); j.merge_or_update(j);
+}
